@@ -17,8 +17,9 @@ def build_spec():
     from . import c_exit_arrival, c_simulation
     c_exit_arrival.declare_arrivals(spec)
     c_simulation.declare_loops(spec)
-    from . import c_schedules
+    from . import c_schedules, c_preempt
     c_schedules.declare_node_side(spec)
+    c_preempt.declare_class_change_event(spec)
     return spec
 
 
